@@ -105,7 +105,51 @@ pub fn run(ctx: &Ctx) -> Report {
   let mut rep = Report::default();
   let mut orc = Oracle::spawn();
   let mut rng = Rng::new(ctx.seed);
-  rep.rule = "pairs of valid ST-MOCs (u64 time x u64 space) over a time axis of 6-10 slots at the bottom or top of the time domain, <= 4 elements per operand, <= 3 time ranges per element, space parts drawn from 8 small S-MOCs realising equal / nested / overlapping / disjoint / full-sky; both operand orders; or(&,&), into_or, iterator form; empty operands and A=B included. Each output is judged by the extracted checkers valid2db and pts_opb(or). non-trivial = both operands non-empty; distinct = distinct pair".to_string();
+  rep.rule = "pairs of valid ST-MOCs (u64 time x u64 space) over a time axis of 6-10 slots at the bottom or top of the time domain, <= 4 elements per operand, <= 3 time ranges per element, space parts drawn from 8 small S-MOCs realising equal / nested / overlapping / disjoint / full-sky; both operand orders; or(&,&), into_or, iterator form; empty operands and A=B included; plus the pairs of an exhaustive small scope (every coverage function over 4 time slots x 2 space cells, single-range elements; quick: every 37th pair, thorough: all 65536). Each output is judged by the extracted checkers valid2db and pts_opb(or). non-trivial = both operands non-empty; distinct = distinct pair".to_string();
+  // exhaustive small scope: every pair of "space coverage as a function of the time slot" over
+  // 4 time slots x 2 space cells (256 x 256 functions; consecutive slots with the same non-empty
+  // coverage form one single-range element), both operand orders are covered by the enumeration.
+  // quick: a stride coprime with 256 samples the pairs; thorough: all of them
+  {
+    let (dt, ds) = (3u8, 0u8);
+    let sh_t = Q::T.shift(64, dt);
+    let sh_s = Q::S.shift(64, ds);
+    let mk = |f: u32| -> StMoc {
+      let mut elems: Vec<(Vec<(u64, u64)>, Vec<(u64, u64)>)> = Vec::new();
+      let mut slot = 0u64;
+      while slot < 4 {
+        let m = (f >> (2 * slot)) & 3;
+        if m == 0 {
+          slot += 1;
+          continue;
+        }
+        let mut end = slot + 1;
+        while end < 4 && (f >> (2 * end)) & 3 == m {
+          end += 1;
+        }
+        let s: Vec<(u64, u64)> = match m {
+          1 => vec![(0, 1 << sh_s)],
+          2 => vec![(2 << sh_s, 3 << sh_s)],
+          _ => vec![(0, 1 << sh_s), (2 << sh_s, 3 << sh_s)],
+        };
+        elems.push((vec![(slot << sh_t, end << sh_t)], s));
+        slot = end;
+      }
+      StMoc { dt, ds, elems }
+    };
+    let stride = ctx.n(37, 1);
+    let mut k = 0u64;
+    for fa in 0..256u32 {
+      for fb in 0..256u32 {
+        k += 1;
+        if k % stride != 0 {
+          continue;
+        }
+        check_pair(&mut rep, &mut orc, &mk(fa), &mk(fb));
+      }
+    }
+    rep.count("phase:exhaustive-4-slots-x-2-cells-done");
+  }
   let n = ctx.n(6_000, 200_000);
   for i in 0..n {
     let dt = *rng.pick(&[0u8, 3, 10, 61]);
